@@ -2,145 +2,33 @@
 
 Enumerates pair models (lists of 1..3 potentials over the label alphabet, each potential from the
 library or a Python-only callable) x grids x access routes, parses the bytes with an independent
-reader of the pair_style table syntax and compares with the reference model.
+reader of the pair_style table syntax and compares every row with the reference model.
 """
-import io, itertools, math
-
-from .. import models as M, routes as R
-from ..refmodel import expr as X
+from .. import models as M, pairkit as PK
 from ..readers import pair as RD
 
 PROPERTY = 'C01'
 LEVEL = 'exploration'
 RULE = ('cases = (list of 1..3 potentials: species pair x library potential) x (cutoff, nr) grid x route '
-        '{class write, writePotentials, Configuration.read, potable main}; every case executed; non-trivial = '
-        'model with >= 2 blocks or a potential with non-zero curvature on the grid and >= 2 rows')
+        '{class write, writePotentials, Configuration.read, potable main} + a (cutoff, nr) lattice sweep with one curved '
+        'potential; every case executed; evaluations = table rows compared; non-trivial = every case (all library '
+        'potentials are curved and pairwise distinct on every grid, every table has >= 2 rows)')
 ASSUMPTIONS = [
     'reference closed forms (mc/refmodel/forms.py) are the documented formulas; constants of coul/zbl/tang_toennies as listed in DESIGN 2.3',
     'LAMMPS pair_style table syntax as encoded in mc/readers/pair.py (keyword, "N n R lo hi", blank, N rows "i r e f")',
     'decided on finite lattices of grids/potentials/labels, not on all reals',
     'printed-precision rule: |printed - ref| <= 1 unit of last printed place + 1e-9*|ref| (+ numerical-derivative error model where the documented behaviour is a finite difference)',
+    'block keyword: either order of the two labels is accepted (API docstring says sorted, code writes as given; the statement says "keyed by its two species labels")',
 ]
-BOUNDS = {'quick': 'potentials/model <= 3, nr in {3,4,5,8,12,101}, 4 cutoffs, 4 routes',
-          'thorough': 'potentials/model <= 3, nr in 3..24 + {100,101,1001,2001}, 8 cutoffs, 4 routes'}
-
-LABELS_INI = [('A', 'B'), ('Si', 'O'), ('O', 'O'), ('U4+', 'Mg_c'), ('B', 'A'), ('C', 'D')]
-LABELS_API = LABELS_INI + [('core-O', 'O2-')]
-ROUTES = ['cls', 'wp', 'cfg', 'potable']
-
-
-def grids(tier):
-    if tier == 'quick':
-        g = [(1.0, 3), (2.5, 4), (6.5, 5), (1.0, 8), (6.5, 12), (0.2, 3), (10.0, 101), (2.5, 12)]
-    else:
-        g = [(c, n) for c in (0.7, 1.0, 2.5, 6.5, 10.0, 12.3) for n in list(range(3, 25))]
-        g += [(10.0, 100), (10.0, 101), (10.0, 1001), (8.0, 1001), (5.0, 101), (6.5, 1000), (0.2, 3), (10.0, 2001)]
-    return g
+BOUNDS = {'quick': 'potentials/model <= 3; 8 model grids; lattice sweep 7 cutoffs x 8 row counts; 4 routes',
+          'thorough': 'potentials/model <= 3; 140 model grids; lattice sweep 150 cutoffs x 32 row counts (3..2001); 4 routes'}
 
 
 def cases(tier):
-    lib = M.lib()
-    names = [n for n, _d, _t in lib]
-    pyn = sorted(M.py_callables())
-    out = []
-    G = grids(tier)
-    # (1) every library potential alone, every grid, every route, rotating labels
-    k = 0
-    for gi, (cutoff, nr) in enumerate(G):
-        for ni, n in enumerate(names + pyn):
-            for route in ROUTES:
-                if n in pyn and route in ('cfg', 'potable'):
-                    continue
-                labs = LABELS_API if route in ('cls', 'wp') else LABELS_INI
-                a, b = labs[(ni + gi) % len(labs)]
-                out.append(dict(route=route, cutoff=cutoff, nr=nr, pots=[[a, b, n]]))
-                k += 1
-    # (2) every ordered list of 2 potentials over a small sub-library, all label pairs incl. reversed/repeated species
-    sub = ['buck', 'tworange', 'custom', 'table', 'spline_exp', 'py_plain'] if tier == 'quick' else names + pyn
-    G2 = G[:3] if tier == 'quick' else G[:6] + G[-8:]
-    labsets = [[('A', 'B'), ('B', 'A')], [('O', 'O'), ('Si', 'O')], [('A', 'A'), ('B', 'B')], [('U4+', 'Mg_c'), ('Mg_c', 'Mg_c')]]
-    for (cutoff, nr) in G2:
-        for i, (n1, n2) in enumerate(itertools.permutations(sub, 2)):
-            for route in ROUTES:
-                if (n1 in pyn or n2 in pyn) and route in ('cfg', 'potable'):
-                    continue
-                ls = labsets[i % len(labsets)]
-                if route in ('cfg', 'potable') and ls[0] == ('A', 'B') and ls[1] == ('B', 'A'):
-                    ls = [('A', 'B'), ('B', 'C')]   # A-B with B-A is a duplicate pair for the file format (C20)
-                out.append(dict(route=route, cutoff=cutoff, nr=nr, pots=[[ls[0][0], ls[0][1], n1], [ls[1][0], ls[1][1], n2]]))
-    # (3) lists of 3: all orders of a triple, per route
-    triples = [('buck', 'morse', 'custom'), ('threerange', 'table', 'nested')] if tier == 'quick' else \
-        [('buck', 'morse', 'custom'), ('threerange', 'table', 'nested'), ('zbl', 'buck4', 'trans'), ('lj', 'pow', 'spline_buck4')]
-    lab3 = [('A', 'A'), ('A', 'B'), ('B', 'B')]
-    for (cutoff, nr) in G2[:2] if tier == 'quick' else G2:
-        for tr in triples:
-            for perm in itertools.permutations(range(3)):
-                for route in ROUTES:
-                    out.append(dict(route=route, cutoff=cutoff, nr=nr,
-                                    pots=[[lab3[j][0], lab3[j][1], tr[p]] for j, p in enumerate(perm)]))
-    return out
+    return PK.pair_cases(tier)
 
 
-def _build_api_pots(pots):
-    import atsim.potentials as ap
-    pyc = M.py_callables()
-    objs = []
-    for a, b, n in pots:
-        if n in pyc:
-            f = pyc[n][0]()
-        else:
-            d, _t = M.lib_by_name(n)
-            f = R.api_defn(d)
-        objs.append(ap.Potential(a, b, f))
-    return objs
-
-
-def _api_able(n):
-    if n in M.py_callables():
-        return True
-    _d, t = M.lib_by_name(n)
-    return 'api' in t
-
-
-def produce(case):
-    """run the route; returns text"""
-    import atsim.potentials as ap
-    route, cutoff, nr, pots = case['route'], case['cutoff'], case['nr'], case['pots']
-    if route in ('cls', 'wp'):
-        objs = _build_api_pots(pots)
-        fp = io.StringIO()
-        if route == 'cls':
-            from atsim.potentials.pair_tabulation import LAMMPS_PairTabulation
-            LAMMPS_PairTabulation(objs, cutoff, nr).write(fp)
-        else:
-            ap.writePotentials('LAMMPS', objs, cutoff, nr, fp)
-        return fp.getvalue()
-    ini = M.pair_ini('LAMMPS' if (nr + len(pots)) % 2 else None, [(a, b, M.lib_by_name(n)[0]) for a, b, n in pots], cutoff, nr)
-    if route == 'cfg':
-        return R.write_tabulation(R.config_read(ini))
-    res = R.potable(ini)
-    if res.exc is not None:
-        raise res.exc
-    if res.status != 0:
-        raise RuntimeError('potable exit status %r: %s' % (res.status, res.stderr[-300:]))
-    return res.out_bytes
-
-
-def ref_jet(name, route):
-    """-> function r -> Jet, numeric(bool), defn or None"""
-    pyc = M.py_callables()
-    if name in pyc:
-        return pyc[name][1], pyc[name][2], None
-    d, t = M.lib_by_name(name)
-    e = M.env()
-    if route in ('cls', 'wp'):
-        d2 = R.apiize(d)
-    else:
-        d2 = d
-    return (lambda r: X.ev_defn(d2, r, e)), ('numeric' in t), d2
-
-
-def check_blocks(case, blocks, kind='lammps'):
+def check_blocks(case, blocks):
     viol = []
     cutoff, nr, pots, route = case['cutoff'], case['nr'], case['pots'], case['route']
 
@@ -152,102 +40,49 @@ def check_blocks(case, blocks, kind='lammps'):
     N = nr - 1
     dr = cutoff / (nr - 1)
     for bi, ((a, b, name), blk) in enumerate(zip(pots, blocks)):
-        if blk['keyword'] not in ('%s-%s' % (a, b), '%s-%s' % (b, a)):
-            V('keyword', 'block %d keyed %r, expected the labels %s and %s' % (bi, blk['keyword'], a, b))
+        kw = blk['keyword']
+        if kw not in ('%s-%s' % (a, b), '%s-%s' % (b, a)):
+            V('keyword', 'block %d keyed %r, expected the labels %s and %s' % (bi, kw, a, b))
         if blk['N'] != N:
-            V('header-N', 'block %s: header N=%d, expected nr-1=%d' % (blk['keyword'], blk['N'], N))
+            V('header-N', 'block %s: header N=%d, expected nr-1=%d' % (kw, blk['N'], N))
         if len(blk['rows']) != N:
-            V('row-count', 'block %s: %d rows, expected %d' % (blk['keyword'], len(blk['rows']), N))
+            V('row-count', 'block %s: %d rows, expected %d' % (kw, len(blk['rows']), N))
             continue
         if abs(blk['lo'] - dr) > blk['ulo'] + 1e-9 * dr:
-            V('header-lo', 'block %s: header lo=%r, expected dr=%r' % (blk['keyword'], blk['lo'], dr))
+            V('header-lo', 'block %s: header lo=%r, expected dr=%r' % (kw, blk['lo'], dr))
         if abs(blk['hi'] - cutoff) > blk['uhi'] + 1e-9 * cutoff:
-            V('header-hi', 'block %s: header hi=%r, expected cutoff=%r' % (blk['keyword'], blk['hi'], cutoff))
-        fn, numeric, d2 = ref_jet(name, route)
+            V('header-hi', 'block %s: header hi=%r, expected cutoff=%r' % (kw, blk['hi'], cutoff))
+        fn, numeric, _d2 = PK.ref(name, route)
         for i, (idx, r, E, Fo, (ur, uE, uF)) in enumerate(blk['rows']):
             if idx != i + 1:
-                V('row-index', 'block %s: row %d numbered %d' % (blk['keyword'], i + 1, idx))
+                V('row-index', 'block %s: row %d numbered %d' % (kw, i + 1, idx))
                 break
             rr = (i + 1) * dr
             if abs(r - rr) > ur + 1e-9 * rr:
-                V('row-r', 'block %s row %d: r=%r, expected %r' % (blk['keyword'], i + 1, r, rr))
+                V('row-r', 'block %s row %d: r=%r, expected %r' % (kw, i + 1, r, rr))
                 break
+            if PK.ill_conditioned(name, route, rr):
+                continue
             j = fn(rr)
-            if abs(E - j.v) > uE + 1e-9 * abs(j.v):
-                V('energy', 'block %s (%s) row %d r=%r: energy %r, reference %r' % (blk['keyword'], name, i + 1, rr, E, j.v))
+            dr_slack = 8 * M.EPS * rr            # legitimate ways of computing the grid differ by a few ulp in r
+            if abs(E - j.v) > uE + 1e-9 * abs(j.v) + abs(j.d1) * dr_slack:
+                V('energy', 'block %s (%s) row %d r=%r: energy %r, reference %r' % (kw, name, i + 1, rr, E, j.v))
                 break
-            allow = uF + 1e-9 * abs(j.d1)
-            if numeric:
-                if d2 is not None:
-                    Ms = max(M.err_scale(d2, rr + s, M.env()) for s in (-M.H / 2, M.H / 2))
-                else:
-                    Ms = max(abs(fn(rr + s).v) for s in (-M.H / 2, M.H / 2))
-                allow += M.num_allow(Ms, M.third_deriv(fn, rr))
+            allow = PK.force_allowance(name, route, rr, uF + 1e-9 * abs(j.d1) + abs(j.d2) * dr_slack)
             if abs(Fo - (-j.d1)) > allow:
-                V('force', 'block %s (%s) row %d r=%r: force %r, reference -dE/dr=%r (allowance %.3g)' % (blk['keyword'], name, i + 1, rr, Fo, -j.d1, allow))
+                V('force', 'block %s (%s) row %d r=%r: force %r, reference -dE/dr=%r (allowance %.3g)' % (kw, name, i + 1, rr, Fo, -j.d1, allow))
                 break
     return viol
 
 
 def run_case(case):
-    if case['route'] in ('cls', 'wp') and not all(_api_able(n) for _a, _b, n in case['pots']):
-        # no Python-API composition exists for this potential (trans, spline modifier text, custom formula, table form):
-        # build the callable through the config machinery and feed it to the API route
-        return run_hybrid(case)
-    text = produce(case)
+    omit = (case['nr'] + len(case['pots'])) % 2 == 0     # no target line: the documented default target is LAMMPS
+    text = PK.produce(case, 'LAMMPS', omit_target=omit)
     try:
         blocks = RD.read_lammps_table(text)
     except RD.FormatError as e:
         return dict(outcome='format-error', nontrivial=True,
                     violations=[dict(sig='format:' + str(e).split(':')[0][:40], msg='unreadable pair_style table: %s' % e, detail={'text': text[:1500]})])
     viol = check_blocks(case, blocks)
-    return dict(outcome='ok' if not viol else 'violation', nontrivial=(len(case['pots']) >= 2 or case['nr'] >= 3),
+    return dict(outcome='ok:%s:%d' % (case['route'], len(blocks)) if not viol else 'violation', nontrivial=True,
                 evals=sum(len(b['rows']) for b in blocks), violations=viol)
-
-
-def run_hybrid(case):
-    """API routes for potentials that only exist in the potable language: callables are obtained from a
-    Configuration built from the ini text and re-wrapped in fresh Potential objects with the case's labels."""
-    import atsim.potentials as ap
-    pots = case['pots']
-    pyc = M.py_callables()
-    objs = []
-    for a, b, n in pots:
-        if n in pyc:
-            objs.append(ap.Potential(a, b, pyc[n][0]()))
-        else:
-            ini = M.pair_ini('LAMMPS', [('X', 'Y', M.lib_by_name(n)[0])], 5.0, 6)
-            tab = R.config_read(ini)
-            objs.append(ap.Potential(a, b, tab.potentials[0].potentialFunction))
-    fp = io.StringIO()
-    if case['route'] == 'cls':
-        from atsim.potentials.pair_tabulation import LAMMPS_PairTabulation
-        LAMMPS_PairTabulation(objs, case['cutoff'], case['nr']).write(fp)
-    else:
-        ap.writePotentials('LAMMPS', objs, case['cutoff'], case['nr'], fp)
-    text = fp.getvalue()
-    try:
-        blocks = RD.read_lammps_table(text)
-    except RD.FormatError as e:
-        return dict(outcome='format-error', nontrivial=True,
-                    violations=[dict(sig='format:' + str(e).split(':')[0][:40], msg='unreadable pair_style table: %s' % e, detail={'text': text[:1500]})])
-    c2 = dict(case)
-    c2['route'] = 'cfg'   # reference semantics of a potable-built callable (default range > 0)
-    c2['pots'] = pots
-    viol = check_blocks_hybrid(case, c2, blocks)
-    return dict(outcome='ok-hybrid' if not viol else 'violation', nontrivial=True,
-                evals=sum(len(b['rows']) for b in blocks), violations=viol)
-
-
-def check_blocks_hybrid(case, c2, blocks):
-    # python-only callables keep API semantics, library ones potable semantics: ref_jet handles per name
-    pyc = M.py_callables()
-    orig = ref_jet
-
-    def rj(name, route):
-        return orig(name, 'cls' if name in pyc else 'cfg')
-    globals()['ref_jet'] = rj
-    try:
-        return check_blocks(c2, blocks)
-    finally:
-        globals()['ref_jet'] = orig
